@@ -2,13 +2,18 @@
 
     ToCSV, MakeFilename, Write, RenderLaTeX, Write, LaTeXToPDF, PDFToPNG
 
+or its grouped variant
+
+    GroupBy, group_plots, MapGroup(ToCSV, MakeFilename, Write), MakeFilename, RenderLaTeX, Write,
+    LaTeXToPDF, PDFToPNG                      (or the deprecated GroupPlots(transform=...) in place of the first three)
+
 in a scratch directory over histories of runs (changed data, changed template, deleted files) with stub
 converters, and records for every run what the statement talks about: the content of the files named
 by the yielded values (decoded to template / data versions), which files were written (audit hook on
 `open`), which converters were launched (the stubs log their invocations), output.changed of the
 yielded values.  The records are judged by spec/Trace_Output.tla only.
 
-LaTeXToPDF gets a `create_command` that runs a stub script writing "PDF(<tex content>|<csv content>)";
+LaTeXToPDF gets a `create_command` that runs a stub script writing "PDF(<tex>|<csv 1>|<csv 2>...)";
 PDFToPNG calls `pdftoppm`: a fake one is first on PATH and writes "PNG(<pdf content>)".
 """
 from __future__ import print_function
@@ -20,15 +25,16 @@ import os
 import re
 import shutil
 import sys
+import warnings
 
 from . import core
 
-KINDS = ("csv", "tex", "pdf", "png")
-
 _LATEX_STUB = """#!/bin/sh
-# $1 tex file (its first line names the csv file), $2 pdf file
-read -r csv < "$1"
-{ printf 'PDF('; cat "$1"; printf '|'; cat "$csv" 2>/dev/null; printf ')'; } > "$2"
+# $1 tex file (its first line names the csv files, then END), $2 pdf file
+read -r first < "$1"
+{ printf 'PDF('; cat "$1"
+  for c in $first; do case "$c" in END) ;; *) printf '|'; cat "$c" 2>/dev/null;; esac; done
+  printf ')'; } > "$2"
 echo "latex $1" >> "%(log)s"
 """
 _PDFTOPPM_STUB = """#!/bin/sh
@@ -48,36 +54,92 @@ def _hook(event, args):
             _audit["writes"].append(path)
 
 
+class CsvObject(object):
+    """Data with a method write(filepath): written by Write through that method."""
+
+    def __init__(self, text):
+        self.text = text
+
+    def write(self, filepath):
+        # Write does not create the directory for objects with a write method
+        os.makedirs(os.path.dirname(filepath), exist_ok=True)
+        with open(filepath, "w") as f:
+            f.write(self.text)
+
+
 class Plot(object):
-    """Naming and data of one plot.  Odd plots are histograms, even ones graphs; the second one lives
-    in a sub-directory given through context.output.dirname, the third has a path in its file name."""
+    """Naming and data of one plot (one source) or one group (several sources, one tex / pdf / png).
 
-    def __init__(self, p):
-        self.p = p
-        self.name = {1: "plot1", 2: "plot2", 3: os.path.join("deep", "er", "plot3")}.get(p, "plot%d" % p)
-        self.dirname = "sub" if p == 2 else ""
+    plain plots: 1 plain name; 2 directory through MakeFilename(dirname="{{dir}}"); 3 a path inside the
+    file name and context.output.fileext "dat" for the data file; others through context.output.dirname.
+    Sources are histograms, graphs, plain strings (by position and `variant`) or objects with a write method.
+    """
 
-    def data(self, version):
+    def __init__(self, p, nsrc, obj, grouped, variant=0):
+        self.p, self.nsrc, self.obj, self.grouped, self.variant = p, nsrc, obj, grouped, variant
+        self.dirname = ""
+        self.csvext = "csv"
+        if grouped:
+            self.gname = "group%d" % p
+            self.members = ["g%dm%d" % (p, m) for m in range(1, nsrc + 1)]
+            if p == 2:
+                self.dirname = "grp"
+        else:
+            self.gname = {1: "plot1", 2: "plot2", 3: os.path.join("deep", "er", "plot3")}.get(p, "plot%d" % p)
+            self.members = [self.gname]
+            if p == 2:
+                self.dirname = "sub"
+            elif p == 3:
+                self.csvext = "dat"
+            elif p >= 4:
+                self.dirname = "d%d" % p
+
+    def kind(self, m):
+        if self.obj:
+            return "obj"
+        return ("hist", "graph", "str")[(self.p + m + self.variant) % 3]
+
+    def data(self, m, version):
         import lena.structures
-        if self.p % 2:
+        k = self.kind(m)
+        if k == "hist":
             h = lena.structures.histogram([0, 1, 2, 3])
             h.fill(0.5, version)
-            h.fill(1.5, self.p)
+            h.fill(1.5 + (m > 1), self.p)
             return h
-        return lena.structures.graph([[0, 1, 2], [version, self.p, 7]])
+        if k == "graph":
+            return lena.structures.graph([[0, 1, 2], [version, self.p, 7 + m]])
+        text = "x,y\n0,%d\n1,%d\n2,%d" % (version, self.p, m)
+        return CsvObject(text) if k == "obj" else text
 
-    def context(self):
-        ctx = {"name": self.name}
-        if self.dirname:
-            ctx["output"] = {"dirname": self.dirname}
+    def context(self, m):
+        ctx = {"name": self.members[m - 1]}
+        out = {}
+        if self.grouped:
+            ctx["grp"] = self.gname
+            if self.dirname:
+                out["dirname"] = self.dirname
+        elif self.p == 2:
+            ctx["dir"] = self.dirname
+        elif self.dirname:
+            out["dirname"] = self.dirname
+        if self.csvext != "csv":
+            out["fileext"] = self.csvext
+        if self.kind(m) in ("str", "obj"):
+            out["filetype"] = "csv"
+        if out:
+            ctx["output"] = out
         return ctx
 
+    def csv_path(self, outdir, m):
+        return os.path.join(outdir, self.dirname, self.members[m - 1] + "." + self.csvext)
+
     def path(self, outdir, kind):
-        return os.path.join(outdir, self.dirname, self.name + "." + kind)
+        return os.path.join(outdir, self.dirname, self.gname + "." + kind)
 
 
 class Tap(object):
-    """Pass-through element that remembers the text produced for each plot (the content the
+    """Pass-through element that remembers the text produced for each source / plot (the content the
     files must have: 'exactly the content produced from the current data')."""
 
     def __init__(self):
@@ -87,8 +149,11 @@ class Tap(object):
         import lena.flow
         for val in flow:
             data, context = lena.flow.get_data_context(val)
+            key = context.get("grp") if "group" in context else context.get("name")
             if isinstance(data, str):
-                self.seen[context.get("name")] = data
+                self.seen[key] = data
+            elif isinstance(data, CsvObject):
+                self.seen[key] = data.text
             yield val
 
 
@@ -124,85 +189,115 @@ class Workspace(object):
             _audit["on"] = False
 
     def write_template(self, version, stamp):
-        path = os.path.join(self.tpl, "plot.tex")
-        with open(path, "w") as f:
-            # first line: the csv file the plot is made from; then the template proper
-            f.write("\\VAR{ output.filepath }\n%% template version %d for \\VAR{ name }\n" % version)
-        # jinja2 reloads a template when its modification time differs
-        os.utime(path, (stamp, stamp))
+        # first line: the csv file(s) the plot is made from, then END; then the template proper
+        texts = {"plot.tex": "\\VAR{ output.filepath } END\n%% template version %d for \\VAR{ name }\n" % version,
+                 "group.tex": "\\BLOCK{ for item in group }\\VAR{ item.output.filepath } \\BLOCK{ endfor }END\n"
+                              "%% template version %d for \\VAR{ grp }\n" % version}
+        for name, text in texts.items():
+            path = os.path.join(self.tpl, name)
+            with open(path, "w") as f:
+                f.write(text)
+            # jinja2 reloads a template when its modification time differs
+            os.utime(path, (stamp, stamp))
 
-    def pipeline(self, outdir, st):
+    def pipeline(self, outdir, st, grouped, variant=0):
         import lena.core
+        import lena.flow
         import lena.output
+        from lena.flow.group_plots import group_plots, GroupPlots
         cmd = lambda tex, pdf, d, ctx: [os.path.join(self.bin, "latexstub"), tex, pdf]
         kw = {"check": {}, "existing_unchanged": {"existing_unchanged": True}, "overwrite": {"overwrite": True}}
         self.tap_csv, self.tap_tex = Tap(), Tap()
-        return lena.core.Sequence(
-            lena.output.ToCSV(),
-            self.tap_csv,
-            lena.output.MakeFilename("{{name}}"),
-            lena.output.Write(outdir, verbose=False, **kw[st["m1"]]),
-            lena.output.RenderLaTeX("plot.tex", template_dir=self.tpl),
-            self.tap_tex,
-            lena.output.Write(outdir, verbose=False, **kw[st["m2"]]),
-            lena.output.LaTeXToPDF(overwrite=st["lo"], verbose=0, create_command=cmd),
-            lena.output.PDFToPNG(overwrite=st["po"], verbose=False),
-        )
+        write1 = lena.output.Write(outdir, verbose=False, **kw[st["m1"]])
+        tail = (self.tap_tex,
+                lena.output.Write(outdir, verbose=False, **kw[st["m2"]]),
+                lena.output.LaTeXToPDF(overwrite=st["lo"], verbose=0, create_command=cmd),
+                lena.output.PDFToPNG(overwrite=st["po"], verbose=False))
+        if not grouped:
+            return lena.core.Sequence(
+                lena.output.ToCSV(), self.tap_csv,
+                lena.output.MakeFilename("{{name}}"), lena.output.MakeFilename(dirname="{{dir}}"),
+                write1, lena.output.RenderLaTeX("plot.tex", template_dir=self.tpl), *tail)
+        per_member = (lena.output.ToCSV(), self.tap_csv, lena.output.MakeFilename("{{name}}"), write1)
+        if variant % 2:
+            with warnings.catch_warnings():
+                warnings.simplefilter("ignore")
+                head = (GroupPlots("{{grp}}", transform=per_member),)
+        else:
+            head = (lena.flow.GroupBy("grp"), group_plots, lena.flow.MapGroup(*per_member))
+        return lena.core.Sequence(*(head + (
+            lena.output.MakeFilename("{{grp}}"),
+            lena.output.RenderLaTeX("group.tex", template_dir=self.tpl)) + tail))
 
 
-def run_history(ws, np_, st, steps, same_objects=False):
-    """One history: steps = list of {"del": [[p, kind]..], "data": [p..], "tpl": bool} (the touches before
-    each run; the first run starts from an empty output directory).  Returns the list of run records."""
+def run_history(ws, sc, st, steps, same_objects=False, variant=0):
+    """One history.  sc = {"srcs": sources per plot, "obj": [...], "grouped": bool};
+    steps = list of {"del": [[p, kind, m]..], "data": [[p, m]..], "tpl": bool} (the touches before each run;
+    the first run starts from an empty output directory).  Returns the list of run records."""
     ws.nhist += 1
     outdir = os.path.join(ws.root, "out%d" % ws.nhist)
-    plots = [Plot(p) for p in range(1, np_ + 1)]
-    data_ver = {p.p: 1 for p in plots}
+    plots = [Plot(p + 1, n, sc["obj"][p], sc["grouped"], variant) for p, n in enumerate(sc["srcs"])]
+    data_ver = {pl.p: [1] * pl.nsrc for pl in plots}
     tpl_ver = 1
     ws.write_template(tpl_ver, 1000000000)
-    texts = {p.p: {"csv": {}, "tex": {}} for p in plots}     # version -> text produced
-    seq = ws.pipeline(outdir, st) if same_objects else None
+    texts = {pl.p: {"csv": [dict() for _ in range(pl.nsrc)], "tex": {}} for pl in plots}   # version -> text
+    seq = None
     records = []
 
-    def decode(p, kind, path):
-        """File -> [a, t, d] of OutputRef.tla (version -1: a content that was never produced)."""
-        if not os.path.exists(path):
-            return {"a": True, "t": 0, "d": 0}
+    def read(path):
         with open(path) as f:
-            text = f.read()
-        tx = texts[p]
+            return f.read()
+
+    def decode(pl, kind, m=0):
+        """File -> [a, t, d] of OutputRef.tla (version -1: a content that was never produced)."""
+        path = pl.csv_path(outdir, m) if kind == "csv" else pl.path(outdir, kind)
+        if not os.path.exists(path):
+            return {"a": True, "t": 0, "d": []}
+        text = read(path)
+        tx = texts[pl.p]
         if kind == "csv":
-            d = [v for v, t in tx["csv"].items() if t == text]
-            return {"a": False, "t": 0, "d": max(d) if d else -1}
+            d = [v for v, t in tx["csv"][m - 1].items() if t == text]
+            return {"a": False, "t": 0, "d": [max(d) if d else -1]}
         if kind == "tex":
             t = [v for v, x in tx["tex"].items() if x == text]
-            return {"a": False, "t": max(t) if t else -1, "d": 0}
+            return {"a": False, "t": max(t) if t else -1, "d": []}
         pre, post = ("PDF(", ")") if kind == "pdf" else ("PNG(PDF(", "))")
-        for tv, tt in sorted(tx["tex"].items(), reverse=True):
-            for dv, dt in sorted(tx["csv"].items(), reverse=True):
-                if text == pre + tt + "|" + dt + post:
-                    return {"a": False, "t": tv, "d": dv}
-        return {"a": False, "t": -1, "d": -1}
+        bad = {"a": False, "t": -1, "d": [-1] * pl.nsrc}
+        if not (text.startswith(pre) and text.endswith(post)):
+            return bad
+        parts = text[len(pre):len(text) - len(post)].split("|")
+        if len(parts) != pl.nsrc + 1:
+            return bad
+        t = [v for v, x in tx["tex"].items() if x == parts[0]]
+        ds = []
+        for i in range(pl.nsrc):
+            d = [v for v, x in tx["csv"][i].items() if x == parts[i + 1]]
+            ds.append(max(d) if d else -1)
+        return {"a": False, "t": max(t) if t else -1, "d": ds}
 
-    for k, step in enumerate(steps):
-        for p, kind in step.get("del", []):
-            path = plots[p - 1].path(outdir, kind)
+    for step in steps:
+        for p, kind, m in step.get("del", []):
+            pl = plots[p - 1]
+            path = pl.csv_path(outdir, m) if kind == "csv" else pl.path(outdir, kind)
             if os.path.exists(path):
                 os.remove(path)
-        for p in step.get("data", []):
-            data_ver[p] += 1
+        for p, m in step.get("data", []):
+            data_ver[p][m - 1] += 1
         if step.get("tpl"):
             tpl_ver += 1
             ws.write_template(tpl_ver, 1000000000 + 10 * tpl_ver)
-        if not same_objects or seq is None:
-            seq = ws.pipeline(outdir, st)
-        flow = [(pl.data(data_ver[pl.p]), pl.context()) for pl in plots]
+        # (GroupBy keeps its groups between runs: a grouped pipeline is always built anew)
+        if not same_objects or seq is None or sc["grouped"]:
+            seq = ws.pipeline(outdir, st, sc["grouped"], variant)
+        flow = [(pl.data(m, data_ver[pl.p][m - 1]), pl.context(m)) for pl in plots for m in range(1, pl.nsrc + 1)]
         open(ws.log, "w").close()
         _audit["writes"] = []
         _audit["on"] = True
         exc = ""
         out = []
         try:
-            with contextlib.redirect_stdout(io.StringIO()):
+            with contextlib.redirect_stdout(io.StringIO()), warnings.catch_warnings():
+                warnings.simplefilter("ignore")
                 for val in seq.run(iter(flow)):
                     out.append(val)
         except Exception as e:   # noqa
@@ -212,30 +307,42 @@ def run_history(ws, np_, st, steps, same_objects=False):
         with open(ws.log) as f:
             log = [line.split(" ", 1) for line in f.read().splitlines() if " " in line]
         for pl in plots:
-            if pl.name in ws.tap_csv.seen:
-                texts[pl.p]["csv"][data_ver[pl.p]] = ws.tap_csv.seen[pl.name]
-            if pl.name in ws.tap_tex.seen:
-                texts[pl.p]["tex"][tpl_ver] = ws.tap_tex.seen[pl.name]
+            for m in range(1, pl.nsrc + 1):
+                if pl.members[m - 1] in ws.tap_csv.seen:
+                    texts[pl.p]["csv"][m - 1][data_ver[pl.p][m - 1]] = ws.tap_csv.seen[pl.members[m - 1]]
+            key = pl.gname if pl.grouped else pl.members[0]
+            if key in ws.tap_tex.seen:
+                texts[pl.p]["tex"][tpl_ver] = ws.tap_tex.seen[key]
         obs = []
+        expected_paths = set()
         for pl in plots:
-            paths = {kind: pl.path(outdir, kind) for kind in KINDS}
-            mine = [v for v in out if isinstance(v, tuple) and len(v) == 2 and isinstance(v[1], dict)
-                    and v[1].get("name") == pl.name]
+            paths = {kind: pl.path(outdir, kind) for kind in ("tex", "pdf", "png")}
+            csvs = [pl.csv_path(outdir, m) for m in range(1, pl.nsrc + 1)]
+            expected_paths.update(paths.values())
+            expected_paths.update(csvs)
+            if pl.grouped:
+                mine = [v for v in out if isinstance(v, tuple) and len(v) == 2 and isinstance(v[1], dict)
+                        and v[1].get("grp") == pl.gname and "group" in v[1]]
+            else:
+                mine = [v for v in out if isinstance(v, tuple) and len(v) == 2 and isinstance(v[1], dict)
+                        and v[1].get("name") == pl.members[0]]
             ch, path_ok = "U", False
             if len(mine) == 1:
                 data, ctx = mine[0]
                 path_ok = data == paths["png"]
                 c = ctx.get("output", {}).get("changed", "U")
                 ch = "T" if c is True else "F" if c is False else "U"
+            files = {kind: decode(pl, kind) for kind in ("tex", "pdf", "png")}
+            files["csv"] = [decode(pl, "csv", m) for m in range(1, pl.nsrc + 1)]
             obs.append({
-                "files": {kind: decode(pl.p, kind, paths[kind]) for kind in KINDS},
-                "wrote": {kind: paths[kind] in writes for kind in ("csv", "tex")},
-                "launched": {"pdf": sum(1 for c, a in log if c == "latex" and a == paths["tex"]) > 0,
-                             "png": sum(1 for c, a in log if c == "pdftoppm" and a == paths["pdf"]) > 0},
-                "nlaunch": sum(1 for c, a in log if a in (paths["tex"], paths["pdf"])),
+                "files": files,
+                "wrote": {"csv": [c in writes for c in csvs], "tex": paths["tex"] in writes},
+                "launched": {"pdf": any(c == "latex" and a == paths["tex"] for c, a in log),
+                             "png": any(c == "pdftoppm" and a == paths["pdf"] for c, a in log)},
                 "ch": ch, "path_ok": path_ok, "nvals": len(mine)})
-        others = [w for w in writes if not any(w == pl.path(outdir, kd) for pl in plots for kd in KINDS)]
-        records.append({"touched": {"del": [list(x) for x in step.get("del", [])], "data": list(step.get("data", [])),
+        others = [w for w in writes if w not in expected_paths]
+        records.append({"touched": {"del": [list(x) for x in step.get("del", [])],
+                                    "data": [list(x) for x in step.get("data", [])],
                                     "tpl": bool(step.get("tpl"))},
                         "obs": obs, "exc": exc, "stray": len(others) + len(out) - sum(o["nvals"] for o in obs)})
     shutil.rmtree(outdir, ignore_errors=True)
@@ -253,10 +360,10 @@ _END_RE = re.compile(r'^<<"END", (\d+)>>', re.M)
 
 
 def validate_shard(workdir, recs, label):
-    """recs: [{np, set, runs}].  -> ({history index: [(run index, predicate, plot)]}, stats)"""
+    """recs: [{sc, set, runs}].  -> ({history index: [(run index, predicate, plot)]}, stats)"""
     path = os.path.join(workdir, "%s.json" % label)
     with open(path, "w") as f:
-        json.dump([{"np": r["np"], "set": r["set"], "runs": r["runs"]} for r in recs], f)
+        json.dump([{"srcs": r["sc"]["srcs"], "obj": r["sc"]["obj"], "set": r["set"], "runs": r["runs"]} for r in recs], f)
     res = core.run_tlc("Trace_Output", "Trace_Output.cfg", workdir, workers=1, env={"TRACE_FILE": path}, timeout=3000)
     os.remove(path)
     stats = {"cfg": "Trace_Output.cfg", "generated": res.generated, "distinct": res.distinct, "wall": res.wall,
@@ -272,9 +379,71 @@ def validate_shard(workdir, recs, label):
     return bad, stats
 
 
-def touch_sig(t):
-    parts = ["del_%s%d" % (k, p) for p, k in t["del"]] + ["data%d" % p for p in t["data"]] + (["tpl"] if t["tpl"] else [])
-    return "+".join(parts) or "none"
+def _actions(rec, j, p):
+    """What the chain did to the files of plot p in run j: per file 'created' (was absent, written),
+    'rewritten' / 'redone' (was there), 'kept' / 'skipped' (there, untouched) or 'missing'."""
+    run = rec["runs"][j]
+    o = run["obs"][p - 1]
+    prev = rec["runs"][j - 1]["obs"][p - 1]["files"] if j > 0 else None
+    gone = set((q, k, m) for q, k, m in run["touched"]["del"] if q == p)
+
+    def absent_before(kind, m=0):
+        if prev is None or (p, kind, m) in gone:
+            return True
+        f = prev["csv"][m - 1] if kind == "csv" else prev[kind]
+        return f["a"]
+
+    def act(kind, done, m=0, words=("created", "rewritten", "kept")):
+        post = o["files"]["csv"][m - 1] if kind == "csv" else o["files"][kind]
+        if done:
+            return words[0] if absent_before(kind, m) else words[1]
+        return "missing" if post["a"] else words[2]
+
+    conv = ("made", "redone", "skipped")
+    return {"csv": sorted(set(act("csv", w, m + 1) for m, w in enumerate(o["wrote"]["csv"]))),
+            "tex": act("tex", o["wrote"]["tex"]),
+            "pdf": act("pdf", o["launched"]["pdf"], words=conv),
+            "png": act("png", o["launched"]["png"], words=conv),
+            "pdf_absent_before": absent_before("pdf"), "png_absent_before": absent_before("png")}
+
+
+def cause(rec, j, pred, p):
+    """Short description of the circumstances of a failed predicate (part of the violation key):
+    which file was created / rewritten / kept / skipped in that run."""
+    run = rec["runs"][j]
+    if pred == "RunRaised":
+        return run["exc"] or "?"
+    o = run["obs"][p - 1]
+    a = _actions(rec, j, p)
+    csv = "csv=" + "/".join(a["csv"])
+    # the first thing done along the chain
+    if any(x in ("created", "rewritten") for x in a["csv"]):
+        first = csv
+    elif a["tex"] in ("created", "rewritten"):
+        first = "tex=" + a["tex"]
+    elif a["pdf"] in ("made", "redone"):
+        first = "pdf=" + a["pdf"]
+    elif a["png"] in ("made", "redone"):
+        first = "png=" + a["png"]
+    else:
+        first = "nothing-done"
+    if pred == "Yielded":
+        return "nvals=%d" % o["nvals"] if o["nvals"] != 1 else "path"
+    if pred == "Current_csv":
+        return csv
+    if pred == "Current_tex":
+        return "tex=" + a["tex"]
+    if pred in ("Changed", "NoRedo"):
+        return first
+    if pred == "Regenerated_pdf":
+        return first if first.startswith(("csv", "tex")) else "pdf=missing"
+    if pred == "Current_pdf":
+        return "pdf=" + a["pdf"]
+    if pred == "Regenerated_png":
+        return "pdf=" + a["pdf"] if a["pdf"] in ("made", "redone") else "png=missing"
+    if pred == "Current_png":
+        return "png=" + a["png"]
+    return "?"
 
 
 def _shard_job(args):
@@ -286,15 +455,16 @@ def _shard_job(args):
     ws = Workspace(os.path.join(d, "ws"))
     recs = []
     with ws.activated():
-        for gi, np_, st, steps, same in items:
-            runs = run_history(ws, np_, st, steps, same_objects=same)
-            recs.append({"np": np_, "set": st, "runs": runs, "same_objects": same, "gi": gi})
+        for gi, sc, st, steps, same in items:
+            runs = run_history(ws, sc, st, steps, same_objects=same, variant=gi)
+            recs.append({"sc": sc, "set": st, "runs": runs, "same_objects": same, "gi": gi})
     bad, stats = validate_shard(d, recs, "trace")
-    hashes = [hashlib.md5(core.canon([r["np"], r["set"], r["runs"]]).encode()).hexdigest()
+    hashes = [hashlib.md5(core.canon([r["sc"], r["set"], r["runs"]]).encode()).hexdigest()
               for i, r in enumerate(recs) if i not in bad and len(r["runs"]) > 1]
     out = {"n": len(recs), "runs": sum(len(r["runs"]) for r in recs),
            "bad": [(recs[i], v) for i, v in sorted(bad.items())], "hashes": hashes, "stats": stats,
-           "samples": [r for i, r in enumerate(recs) if i not in bad and len(r["runs"]) > 2][:1]}
+           "samples": [r for i, r in enumerate(recs) if i not in bad and len(r["runs"]) > 1 and r["sc"]["grouped"]][:1]
+                      + [r for i, r in enumerate(recs) if i not in bad and len(r["runs"]) > 2][:1]}
     shutil.rmtree(d, ignore_errors=True)
     return out
 
@@ -305,24 +475,17 @@ class _Res(object):
         self.coverage = {}
 
 
-def settings_sig(st):
-    parts = []
-    if st["m1"] != "check":
-        parts.append("w1=" + st["m1"])
-    if st["m2"] != "check":
-        parts.append("w2=" + st["m2"])
-    if st["lo"]:
-        parts.append("latex_overwrite")
-    if st["po"]:
-        parts.append("png_overwrite")
-    return ",".join(parts) or "default"
+def touch_sig(t):
+    parts = ["del_%s%d%s" % (k, p, "" if not m else ".%d" % m) for p, k, m in t["del"]] + \
+            ["data%d.%d" % (p, m) for p, m in t["data"]] + (["tpl"] if t["tpl"] else [])
+    return "+".join(parts) or "none"
 
 
-def check_histories(ctx, items, what, min_shard=40, reported=None):
-    """items: list of (np, settings, steps, same_objects).  Replays each history on the real chain,
+def check_histories(ctx, items, what, min_shard=40):
+    """items: list of (scenario, settings, steps, same_objects).  Replays each history on the real chain,
     validates the recorded runs with Trace_Output.tla, accounts them, and reports one violation per
-    (first failing predicate, minimal set of touches of the failing run); `reported` collects these pairs
-    across calls so that a later (sparser) batch does not report the same failure under another name."""
+    (first failing predicate of the first failing run, what the chain did in that run); the example is the
+    shortest such history."""
     import multiprocessing
     if not items:
         return 0
@@ -341,7 +504,7 @@ def check_histories(ctx, items, what, min_shard=40, reported=None):
             pool.close()
             pool.join()
     nacc = 0
-    found = {}     # predicate -> list of (touch set, settings signature, rec, run index, plot)
+    found = {}
     for o in outs:
         st = o["stats"]
         ctx._account("trace", "Trace_Output", st["cfg"], _Res(st))
@@ -358,30 +521,17 @@ def check_histories(ctx, items, what, min_shard=40, reported=None):
             # wrong), and of its verdicts the one earliest in the chain (the others follow from it)
             first = min(j for j, _, _ in verdicts)
             j, pred, p = min((v for v in verdicts if v[0] == first), key=lambda v: (PRIORITY.index(v[1]), v[2]))
-            t = rec["runs"][j]["touched"]
-            # touches of other plots are irrelevant for plot p; the plot is renumbered to 1
-            rel = {"del": [[1, k] for q, k in t["del"] if q == p], "data": [1 for q in t["data"] if q == p],
-                   "tpl": t["tpl"]}
-            tset = frozenset(touch_sig(rel).split("+")) | (frozenset(["first-run"]) if j == 0 else frozenset())
-            found.setdefault(pred, []).append((tset, settings_sig(rec["set"]), rec, j, p))
+            key = "Output:%s:%s" % (pred, cause(rec, j, pred, p))
+            found.setdefault(key, []).append((rec, j, p))
         for r in o["samples"]:
-            ctx.sample({"recorded_history_%s" % what: {k: r[k] for k in ("np", "set", "runs")}}, limit=4)
-    for pred, lst in sorted(found.items()):
-        # one violation per minimal set of touches
-        minimal = set(x[0] for x in lst if not any(y[0] < x[0] for y in lst))
-        for tset in sorted(minimal, key=sorted):
-            if reported is not None:
-                if (pred, tset) in reported:
-                    continue
-                reported.add((pred, tset))
-            xs = [x for x in lst if x[0] == tset]
-            # the options go into the key only when every failing history has them in common
-            ssigs = sorted(set(x[1] for x in xs))
-            common = set.intersection(*[set(x.split(",")) - {"default"} for x in ssigs])
-            suffix = ":" + ",".join(sorted(common)) if common else ""
-            _, _, rec, j, p = min(xs, key=lambda x: (x[1] != "default", len(x[2]["runs"]), x[2]["np"], x[2]["gi"]))
-            ctx.violation("Output:%s:%s%s" % (pred, "+".join(sorted(tset)), suffix), {
-                "found_by": what, "np": rec["np"], "settings": rec["set"], "same_objects": rec["same_objects"],
-                "failing_run": j, "plot": p, "failing_histories": len(xs), "failing_settings": ssigs[:12],
-                "history": [{"touched": r["touched"], "exc": r["exc"], "obs": r["obs"]} for r in rec["runs"][:j + 1]]})
+            ctx.sample({"recorded_history_%s" % what: {k: r[k] for k in ("sc", "set", "runs")}}, limit=5)
+    for key in sorted(found):
+        xs = found[key]
+        rec, j, p = min(xs, key=lambda x: (x[0]["set"] != {"m1": "check", "m2": "check", "lo": False, "po": False},
+                                            x[1], len(x[0]["sc"]["srcs"]), sum(x[0]["sc"]["srcs"]), x[0]["gi"]))
+        ctx.violation(key, {
+            "found_by": what, "scenario": rec["sc"], "settings": rec["set"], "same_objects": rec["same_objects"],
+            "failing_run": j, "plot": p, "touched_before_failing_run": touch_sig(rec["runs"][j]["touched"]),
+            "failing_histories": len(xs),
+            "history": [{"touched": r["touched"], "exc": r["exc"], "obs": r["obs"]} for r in rec["runs"][:j + 1]]})
     return nacc
